@@ -12,7 +12,7 @@ func init() {
 	register(&PropDef{
 		ID:          "C19",
 		Level:       "other",
-		Explanation: "Byte-level completeness is trusted to the OS and libraries; decided is the wiring of the two streams and the key of the log files: LABELS — the writer opened with \"stdout\" reaches (by def-use flow through locals, append, io.MultiWriter) exactly the stdout position of CompileTask and not the stderr position, and vice versa; in the loaded upstream source CompileTask hands its stdout/stderr parameters to the same positions of CompileCommand, which stores them into Job.Stdout/Job.Stderr; every NewPgidExecutor call receives (job.Stdin, job.Stdout, job.Stderr); inside it the stdout/stderr parameters reach the out/err positions of interp.StdIO; the exec handler builds exec.Cmd{Stdout: hc.Stdout, Stderr: hc.Stderr}; the log handler puts the \"stdout\" reader's bytes into the stdout field and the \"stderr\" reader's into stderr; KEY — writer and reader build the path with one function that uses all of (job id, task name, stream); the writer is opened once per task run (not in a loop) with the task's own job-id variable and name; MEMBERSHIP — every Reader call of the log handler is dominated by the task-exists edge, which is set only under ReadJob when the job has a task of that name.",
+		Explanation: "Byte-level completeness is trusted to the OS and libraries; decided is the wiring of the two streams and the key of the log files: LABELS — the writer opened with \"stdout\" reaches (by def-use flow through locals, append, io.MultiWriter) exactly the stdout position of CompileTask and not the stderr position, and vice versa; in the loaded upstream source CompileTask hands its stdout/stderr parameters to the same positions of CompileCommand, which stores them into Job.Stdout/Job.Stderr; every NewPgidExecutor call receives (job.Stdin, job.Stdout, job.Stderr); inside it the stdout/stderr parameters reach the out/err positions of interp.StdIO; the exec handler builds exec.Cmd{Stdout: hc.Stdout, Stderr: hc.Stderr}; the log handler puts the \"stdout\" reader's bytes into the stdout field and the \"stderr\" reader's into stderr; KEY — writer and reader build the path with one function that uses all of (job id, task name, stream); the writer is opened once per task run (not in a loop) with the task's own job-id variable and name; OWNERSHIP — neither Writer, its module callees nor the methods of the type it returns touch a package-level variable (no pooled or shared buffer between log files); MEMBERSHIP — every Reader call of the log handler is dominated by the task-exists edge, which is set only under ReadJob when the job has a task of that name.",
 		Trusted:     []string{"os.File writes are complete and ordered per descriptor", "mvdan/sh passes StdIO to every command of a script", "upstream executor.Job fields are what the executor reads"},
 		NotDecided:  []string{"completeness/order of bytes", "concurrent writers of different jobs (distinct files by the key rule)"},
 		Check:       checkC19,
@@ -420,11 +420,56 @@ func checkC19(w *World, r *Report) {
 			r.Check(exprs["Writer"] == exprs["Reader"] && exprs["Writer"] != "", "key.same-function", "FileOutputStore: writer and reader paths agree", "-", "both open "+exprs["Writer"], "the writer opens "+exprs["Writer"]+" but the reader opens "+exprs["Reader"]+": what is written cannot be read back")
 		}
 	}
+	// ---- OWNERSHIP: the writer handed out for one (job, task, stream) owns its state — neither Writer,
+	// nor the module constructors it calls, nor the methods of the concrete type it returns touch a
+	// package-level variable (a pooled or shared buffer would let bytes of one stream surface in another file)
+	if wf := w.FuncByName("taskctl", "(*FileOutputStore).Writer"); wf != nil {
+		region := map[*ssa.Function]bool{wf: true}
+		var grow func(f *ssa.Function, d int)
+		grow = func(f *ssa.Function, d int) {
+			allInstrs(f, func(in ssa.Instruction) {
+				if c := callCommonOf(in); c != nil {
+					if g := c.StaticCallee(); g != nil && g.Blocks != nil && w.InModule(g) && !region[g] && d < 2 {
+						region[g] = true
+						grow(g, d+1)
+					}
+				}
+				// the concrete type handed out: its methods belong to the writer
+				if mi, ok := in.(*ssa.MakeInterface); ok && f == wf {
+					if n := namedOf(mi.X.Type()); n != nil && n.Obj().Pkg() != nil && w.InModulePkg(n.Obj().Pkg()) {
+						for _, m := range w.ModFuncs {
+							if m.Signature.Recv() != nil && namedOf(m.Signature.Recv().Type()) != nil && namedOf(m.Signature.Recv().Type()).Obj() == n.Obj() && !region[m] {
+								region[m] = true
+								grow(m, d+1)
+							}
+						}
+					}
+				}
+			})
+		}
+		grow(wf, 0)
+		shared := ""
+		for f := range region {
+			for _, fn := range withClosures(f) {
+				allInstrs(fn, func(in ssa.Instruction) {
+					for _, op := range in.Operands(nil) {
+						if g, ok := (*op).(*ssa.Global); ok && g.Pkg != nil && w.InModulePkg(g.Pkg.Pkg) {
+							if w.sentinelError(g) || strings.HasSuffix(g.Type().String(), "error") {
+								continue
+							}
+							shared = globalName(g) + " in " + FuncName(fn) + " (" + w.InstrPos(in) + ")"
+						}
+					}
+				})
+			}
+		}
+		r.Check(shared == "", "key.writer-owns-state", FuncName(wf)+": the writer owns its state", w.Pos(wf.Pos()), fmt.Sprintf("%d functions (Writer, its module callees, methods of the returned type) touch no package-level variable", len(region)), "the writer of a task's log shares package-level state: "+shared+" — a buffer or file that outlives or is shared between writers lets output of one stream, task or job surface in another file")
+	}
 	r.Floor("labels.run", 2)
 	r.Floor("labels.upstream", 4)
 	r.Floor("labels.executor-args", 1)
 	r.Floor("labels.stdio", 3)
-	r.Floor("key.", 8)
+	r.Floor("key.", 9)
 	r.Floor("membership.", 3)
 }
 
